@@ -127,6 +127,21 @@ func (w *World) CheckC07(ctx sdk.Context, l *Ledger, fail func(a, s, d string), 
 		}
 	}
 
+	// the current price lies inside the current tick's bucket. Closed on both sides: a zero-for-one swap that ends exactly
+	// on a tick leaves tick-1 with the tick's price; as wide as one tick spacing: the first position stores the price's tick
+	// rounded down to the spacing. A tick left over from before the last swap step is outside this bucket.
+	if sp.IsPositive() {
+		ts := int64(w.Cfg.TickSpacing)
+		if bl, err := clmath.TickToSqrtPrice(cur); err == nil && sp.LT(bl) {
+			fail("c07.price-inside-current-tick-bucket", "", fmt.Sprintf("current tick %d has sqrt price %s, the pool's sqrt price %s is below it", cur, bl, sp))
+		}
+		if cur+ts <= cltypes.MaxTick {
+			if bu, err := clmath.TickToSqrtPrice(cur + ts); err == nil && sp.GT(bu) {
+				fail("c07.price-inside-current-tick-bucket", "", fmt.Sprintf("current tick %d (spacing %d): tick %d has sqrt price %s, the pool's sqrt price %s is above it", cur, ts, cur+ts, bu, sp))
+			}
+		}
+	}
+
 	// price / tick agreement, per position, closed inequalities
 	if sp.IsPositive() {
 		for _, lp := range l.Pos {
